@@ -35,8 +35,8 @@ def explore(sem, root, env=None, max_depth=12):
     out = []
     seen = set()
 
-    def go(body, env, via, depth, args=None, upvars=None, parent=None):
-        key = (body.path, env_key(env), id(parent[0]) if parent else None, parent[1] if parent else None)
+    def go(body, env, via, depth, args=None, upvars=None, parent=None, tag=None):
+        key = (body.path, env_key(env), id(parent[0]) if parent else None, parent[1] if parent else None, tag)
         if key in seen or depth > max_depth:
             return
         seen.add(key)
@@ -71,7 +71,13 @@ def explore(sem, root, env=None, max_depth=12):
                         v = sem.aval(ce, env)
                         if v is not None:
                             cenv[E("upvar", (), (cb.path, n, cb.upvar_names.get(n)))] = v
-                    go(cb, cenv, via + ((body.path, s.line),), depth + 1, adaptor_args(w, vis, be, body, cb), caps, (vis, bb))
+                    aa = adaptor_args(w, vis, be, body, cb)
+                    if isinstance(aa, tuple) and aa and aa[0] == "each":
+                        # the adaptor walks a literal list: one visit per listed element, with the parameter bound to it
+                        for n_el, al in enumerate(aa[1]):
+                            go(cb, cenv, via + ((body.path, s.line),), depth + 1, al, caps, (vis, bb), tag=n_el)
+                    else:
+                        go(cb, cenv, via + ((body.path, s.line),), depth + 1, aa, caps, (vis, bb))
             t = blk.term
             for cpath, sites in direct.items():
                 for (cbb, ce, targs) in sites:
@@ -106,6 +112,20 @@ def explore(sem, root, env=None, max_depth=12):
     return out
 
 
+def literal_elems(w, it):
+    """elements of an iterator expression over a literal list (vec![a, b].into_iter() / [a, b].iter()), at most 8; else None"""
+    from .iters import last, TRANSPARENT
+    x = w.ident(it, expand_ws=False)
+    for _ in range(8):
+        if x.op == "call" and x.args and w.callee_body(x) is None and last(x.info) in TRANSPARENT:
+            x = w.ident(x.args[0], expand_ws=False)
+    if x.op == "call" and x.info == "vec!" and x.args and x.args[0].op == "array":
+        x = x.args[0]
+    if x.op == "array" and 0 < len(x.args) <= 8:
+        return list(x.args)
+    return None
+
+
 def adaptor_args(w, vis, be, body, cb):
     """parameter values of a closure that is the argument of an iterator / Option / Result adaptor of `body`: the item is
     elem(receiver iterator) (krpsa.iters), the payload of an Option / Result receiver its Some / Ok / Err projection"""
@@ -127,6 +147,9 @@ def adaptor_args(w, vis, be, body, cb):
         recv = vis.resolve(be.ev_operand(blk.idx, n, t.args[0]))
         if tr.endswith("iter::Iterator") or tr.endswith("iter::DoubleEndedIterator"):
             if nm in ITEM_ADAPTORS_1:
+                lit = literal_elems(w, recv)
+                if lit is not None and nm in ("map", "for_each", "filter", "inspect"):
+                    return ("each", [[None, x] for x in lit])
                 return [None, mk_item(w, recv)]
             if nm in ITEM_ADAPTORS_2 and hit == 2:
                 return [None, None, mk_item(w, recv)]
